@@ -1014,6 +1014,32 @@ func evalFunctionCall(node *jparse.FunctionCallNode, data reflect.Value, env *en
 		fn = &c
 	}
 
+	// A function value made by an earlier evaluation can be
+	// shared too (through RegisterVars or the input data), so
+	// the name set below goes to a copy of those as well.
+	if _, ok := node.Func.(*jparse.VariableNode); ok {
+		switch f := fn.(type) {
+		case *lambdaCallable:
+			c := *f
+			fn = &c
+		case *partialCallable:
+			c := *f
+			fn = &c
+		case *transformationCallable:
+			c := *f
+			fn = &c
+		case *regexCallable:
+			c := *f
+			fn = &c
+		case *matchCallable:
+			c := *f
+			fn = &c
+		case *chainCallable:
+			c := *f
+			fn = &c
+		}
+	}
+
 	if setter, ok := fn.(nameSetter); ok {
 		if sym, ok := node.Func.(*jparse.VariableNode); ok {
 			setter.SetName(sym.Name)
